@@ -14,7 +14,7 @@ DiscoKind == IF Has(Sc, "disco") THEN Sc.disco ELSE "ok"
 InWindow(r) == ~r.auth \/ (r.boots = r.agent_boots /\ Abs(r.time - r.agent_time) <= 150)
 OnOp(s, e) ==
   LET first == s.nops = 0
-      failed == e.ret = "exc"
+      failed == e.ret # "ok"
       reqs == e.reqs IN
   [st |-> [s EXCEPT !.nops = @ + 1, !.probes = @ + e.probes,
                     \* spec -> code replay: the outcome UsmTime.tla predicted for this request of a TLC-generated behaviour
@@ -22,9 +22,12 @@ OnOp(s, e) ==
                     !.rebootPending = IF reqs # <<>> THEN FALSE ELSE @,
                     !.failsSinceReboot = IF failed THEN @ + 1 ELSE @],
    cl |-> IF DiscoKind # "ok" /\ first
-          THEN << <<"disco_bad_reply_accepted", failed /\ reqs = <<>> >> >>
+          THEN << <<"disco_bad_reply_accepted", failed /\ reqs = <<>> >>,
+                  \* ... refused with an exception - not turned into a (wrong, e.g. empty) result
+                  <<"disco_bad_reply_became_a_result", e.ret = "exc">> >>
           ELSE \* (after a refused discovery reply the next operation discovers again and is judged like any other)
-          << <<"no_discovery_before_first_request", ~first \/ (e.first_wire = "probe" /\ e.probes >= 1)>>,
+          << <<"wrong_result", e.ret # "wrong">>,
+             <<"no_discovery_before_first_request", ~first \/ (e.first_wire = "probe" /\ e.probes >= 1)>>,
              <<"engine_id_not_used", \A i \in DOMAIN reqs : reqs[i].engine_ok>>,
              <<"context_engine_default", \A i \in DOMAIN reqs : reqs[i].ctx_ok>>,
              <<"outside_time_window", s.rebootPending \/ \A i \in DOMAIN reqs : InWindow(reqs[i])>>,
